@@ -72,6 +72,9 @@ def _join_meet_duality(
 
     n = args[0].dim + 1
 
+    # tensor diagrams identify nodes by identity: an object that is passed more than once is copied
+    args = tuple(o.copy() if any(o is p for p in args[:i]) else o for i, o in enumerate(args))
+
     # all arguments are 1-tensors, i.e. points or hypersurfaces (=lines in 2D)
     if all(o.tensor_shape == args[0].tensor_shape for o in args[1:]) and sum(args[0].tensor_shape) == 1:
         covariant = args[0].tensor_shape[0] > 0
